@@ -201,6 +201,9 @@ pub struct Ctx {
     pub on_sent_wake: Option<Arc<Flag>>,
     /// Deadlines may only expire while no slot is Sendable or Sending (C06's count clause).
     pub tx_priority: bool,
+    /// Deadlines may only be fired by choice while no slot is between "being built" and "response
+    /// being copied" (states 1..=5): every outstanding response has been received.
+    pub timer_gate_all_received: bool,
     pending_cas: Vec<Option<Option<usize>>>,
     pct_next_low: i64,
 }
@@ -267,6 +270,7 @@ impl Ctx {
             time_horizon: u64::MAX,
             on_sent_wake: None,
             tx_priority: false,
+            timer_gate_all_received: false,
             pending_cas: Vec::new(),
             pct_next_low: -1,
         }
@@ -359,6 +363,9 @@ impl Ctx {
             _ => {}
         }
         if self.tx_priority && self.slot_state.iter().any(|s| *s == 2 || *s == 3) {
+            return;
+        }
+        if self.timer_gate_all_received && self.slot_state.iter().any(|s| (1..=5).contains(s)) {
             return;
         }
         if self.tape.flag(self.timer_fire.0, self.timer_fire.1, "timer_fire") {
